@@ -112,6 +112,8 @@ def random_case(rng, tier):
         ops.insert(rng.randint(1, max(1, len(ops) - 1)), ['spoil', rng.randrange(n_procs)])
     case = {'pid_kind': rng.choice(['int', 'uuid', 'str']), 'programs': progs, 'ops': ops, 'faults': faults}
     if rng.random() < 0.3:
+        case['dirname'] = rng.choice(['checkpoints[run-1]', 'a*b', 'why?', 'with space', '[x]'])
+    if rng.random() < 0.3:
         case['instances'] = [rng.randrange(2) for _ in range(rng.randint(2, 7))]  # which of two pickle persisters each call uses
     return case
 
@@ -218,7 +220,9 @@ def run(case):
     seams.begin_case()
     world = programs.World()
     loop = seams.new_loop(max_ticks=20000)
-    directory = tempfile.mkdtemp(prefix='c14-')
+    top = tempfile.mkdtemp(prefix='c14-')
+    # the checkpoint directory has whatever name the application chose, including characters that mean something to glob
+    directory = os.path.join(top, case.get('dirname') or 'checkpoints')
     disk = DiskFaults()
     persistence_module.open = disk.open
     events = world.events
@@ -473,7 +477,7 @@ def run(case):
         result.nontrivial = touched or bool(overwritten)
     finally:
         persistence_module.__dict__.pop('open', None)
-        shutil.rmtree(directory, ignore_errors=True)
+        shutil.rmtree(top, ignore_errors=True)
         seams.reset_world()
         seams.end_case()
     return result
